@@ -55,7 +55,6 @@ def exhaustive(tier):
 
 
 def run_case(case, ctx):
-    d = drv.ExpandingDriver(case, ctx, P)
-    d.run()
+    d = drv.run_twins(case, ctx, P)
     ctx.nt("rotation_dropped_filter" in d.feats and "window_checked_age>=est" in d.feats)
     ctx.trace.insert(0, ["est", case["est"], "Q", case["q"], "fpr", case["fpr"], case["hash"]])
